@@ -1,4 +1,5 @@
 import Atomman.C18
+import Std.Data.HashMap
 open Atomman Atomman.C18
 
 /-! line-protocol driver of the C18 model at `K := Rat` (see harness/props/c18.py for the ops). -/
@@ -67,13 +68,30 @@ def done (r : Option String) : String := r.getD (err "format")
 def quadFn (a1w a2w f00 f01 f10 f11 : Q) (a b : Q) : Q :=
   if a = a1w then (if b = a2w then f00 else f01) else (if b = a2w then f10 else f11)
 
-def egsfPoint (c1 c2 : Q) (row : List Q) : List Q :=
-  match row with
-  | [a1, a2, f00, f01, f10, f11] =>
-    let a1w := wrap fl c1 a1
-    let a2w := wrap fl c2 a2
-    [a1w, a2w, wgt c1 a1w, wgt c2 a2w, E fl (quadFn a1w a2w f00 f01 f10 f11) c1 c2 a1 a2]
-  | _ => []
+/-- the ONE interpolant of a many-point `E_gsf` call: the table of all recorded node values (four per query point:
+    the wrapped point and its three `+1` companions), keyed by the exact node; a node recorded twice keeps its
+    first value, a node never asked gives 0 (never read: `E` asks exactly the four recorded nodes of each point). -/
+def egsfTable (c1 c2 : Q) (rows : List (List Q)) : Std.HashMap (Q × Q) Q :=
+  rows.foldl (fun m row =>
+    match row with
+    | [a1, a2, f00, f01, f10, f11] =>
+      let a1w := wrap fl c1 a1
+      let a2w := wrap fl c2 a2
+      (((m.insertIfNew (a1w, a2w) f00).insertIfNew (a1w, a2w + 1) f01).insertIfNew (a1w + 1, a2w) f10).insertIfNew
+        (a1w + 1, a2w + 1) f11
+    | _ => m) {}
+
+/-- the `egsf` op: ONE call of the model's `EMany` (the definition the `EMany_*` theorems are about) with the one
+    table interpolant; per point the reply also carries the wrapped coordinates and the two blend weights. -/
+def egsfMany (c1 c2 : Q) (rows : List (List Q)) : List Q :=
+  let tbl := egsfTable c1 c2 rows
+  let f : Q → Q → Q := fun a b => (tbl.get? (a, b)).getD 0
+  let qs : List (Q × Q) := rows.map (fun r => (r.getD 0 0, r.getD 1 0))
+  let es := EMany fl f c1 c2 qs
+  (qs.zip es).flatMap (fun qe =>
+    let a1w := wrap fl c1 qe.1.1
+    let a2w := wrap fl c2 qe.1.2
+    [a1w, a2w, wgt c1 a1w, wgt c2 a2w, qe.2])
 
 /-- `none` | `some x y z` prefix → (xvect, remaining tokens as rationals). -/
 def takeXvect (toks : List String) : Option (Option (V3 Q) × List Q) :=
@@ -143,7 +161,7 @@ def handle (toks : List String) : String :=
           let (c2, r) ← take1 r
           let (m, r) ← takeNat r
           let (rows, _) ← takeN (6 * m) r
-          pure (showRats ((chunk 6 m rows).flatMap (egsfPoint c1 c2)))
+          pure (showRats (egsfMany c1 c2 (chunk 6 m rows)))
       | "delta" => done do
           let (m, r) ← takeNat xs
           let (rows, _) ← takeN (2 * m) r
